@@ -135,7 +135,7 @@ func checkC09(a *checkArgs, r *Result) error {
 	r.Rule = "writer side: base histories (xz multi-block, LZMA2 with Flush, classic LZMA on plain and ByteWriter sinks) x every index k of the sink's Write calls x {fail once, fail forever, partial write + fail once, partial + forever}; oracle: no panic (also in the calls issued after the failure, incl. Close), some call returns non-nil when the fault was reached, all-nil only with a complete decodable stream. Reader side: valid streams x every source offset k x {error alone, error together with data}; oracle: open or a Read returns the injected error (errors.Is), never a clean end. Exhaustive per base case. Non-trivial: the fault was reached; distinct by (case, k, mode)."
 	r.Exhaustive = true
 	rng := rand.New(rand.NewSource(a.seed))
-	nbase := 14
+	nbase := 30
 	if a.tier == "thorough" {
 		nbase = 120
 	}
